@@ -64,7 +64,8 @@ def gen_spec(rng, cls=None, force_nan=None):
     if rng.random() < 0.4:
         kw["itstat_options"] = ["display", "display-overwrite", "nodisplay", "custom", "custom-same", "disp", "disp"][int(rng.integers(7))]
         if kw["itstat_options"] == "disp":
-            kw["itstat_options"] = f"disp:{int(rng.integers(1, 5))}:{int(rng.integers(2))}:{int(rng.integers(2))}"
+            per = 0 if rng.random() < 0.12 else int(rng.integers(1, 5))  # period 0 is accepted by the constructor
+            kw["itstat_options"] = f"disp:{per}:{int(rng.integers(2))}:{int(rng.integers(2))}"
     if rng.random() < 0.3:
         kw["maxiter"] = int(rng.integers(0, 5))
     spec["kwargs"] = kw
